@@ -1,19 +1,20 @@
 PROP = dict(
     properties="Properties/C03.v",
     harness_mods=["Harness/C03.v"],
-    runs=[dict(cmd="c03", quick=20, thorough=400), dict(cmd="c03seek", quick=40, thorough=1500)],
+    runs=[dict(cmd="c03", quick=16, thorough=400), dict(cmd="c03seek", quick=30, thorough=1500)],
     trusted_base=[
         "hand-written Gallina model coq/StateRoot/Model.v of the block's change map and mpt.MapToMPTBatch (tied by correspondence: the batch the real function builds from every block's change set)",
         "the Go harness's flat range-query specification (harness/c03.go c03Range; the same definition is evaluated in Coq as sm_range on every 'seek' case) against which FindStates/SeekStates/GetState, mpt.TrieStore.Seek driven directly and the historic DAO Seek are compared",
         "hook pkg/core/mpt/verif_hooks_c11.go (Batch.VerifC11BatchKV, read-only) and pkg/core/verif_hooks.go (VerifPersist/VerifPersistGC)",
     ],
     assumptions=[
-        "interface hypotheses on the abstract trie, quantified in each theorem statement and to be discharged by the C10 model coq/Trie: seek_spec (C10_seek_spec: TrieStore.Seek = range query on the entries), batch_content (PutBatch of a sorted duplicate-free batch changes the content as the batch says), root_canonical (NF_unique + NF preservation), proof_complete, proof_sound up to an exhibited double-SHA-256 collision",
+        "the abstract theorems quantify over an interface (iface_base: invariant, empty content, PutBatch = change of content; root_canonical; seek_spec; proof_complete / proof_sound); the *_concrete theorems have NO such premise: coq/StateRoot/Concrete.v instantiates the interface with the concrete trie of C10 (coq/Trie/Model.v) and proves every premise from C10's theorems (C03_interface_discharged)",
+        "what the concrete theorems still assume about their inputs: every write of a block is admissible (cok: the key is a byte string of at most 68 bytes, a value at most 65539 bytes - what Trie.Put accepts and contract storage can hold); for the proof theorems the hash function has 32-byte digests, and the conclusion carries C10's disjunct 'or a collision of H o H / a preimage of the all-zero root is exhibited'",
         "historic execution = live execution additionally assumes that VM and native contracts are a function of (script, storage view, block context) - shared with C01; compared on generated read-only invocations only",
     ],
-    modelled="put/delete/PutBatch, traversal and proofs of the concrete trie are not modelled here (C10); the chain-level claims (trie content at root_h = storage_h, reads, seeks, proofs, historic invocations) are carried by direct comparison on the real node at every retained height",
+    modelled="put/delete/PutBatch, traversal and proofs of the concrete trie are C10's model (imported, not re-modelled); the chain-level claims (trie content at root_h = storage_h, reads, seeks, proofs, historic invocations) are carried by direct comparison on the real node at every retained height",
 )
 META = dict(
-    text="Proved in Coq: the MPT batch of a block does not depend on map iteration order and is the block's change map in key order with nibble paths (nibbles preserve the byte order); applying it equals applying the block's writes in execution order; by induction over blocks content(trie_h) = storage_h, hence root_h is a function of storage_h, reads/ranges/proofs at root_h are those of storage_h - over an abstract trie interface whose hypotheses are the theorems of C10. Tied to the real node by neotest chains in four retention configurations: at every retained height the trie is compared key for key with the live dump (FindStates, SeekStates, GetState, proofs incl. tampered ones, TrieStore-backed historic DAO Seek both directions, historic invocations vs live). Partial: the concrete trie is C10's; three defects found on the real code are listed as known findings (F3/F25 backward/start seek on TrieStore, F32 historic VM under RemoveUntraceableBlocks).",
+    text="Proved in Coq: the MPT batch of a block does not depend on map iteration order and is the block's change map in key order with nibble paths (nibbles preserve the byte order); applying it equals applying the block's writes in execution order; by induction over blocks content(trie_h) = storage_h, hence root_h is a function of storage_h, reads/ranges/proofs at root_h are those of storage_h - first over an abstract trie interface, then premise-free over the concrete trie model of C10 (every interface premise proved from C10's theorems in StateRoot/Concrete.v). Tied to the real node by neotest chains in four retention configurations: at every retained height the trie is compared key for key with the live dump (FindStates, SeekStates, GetState, proofs incl. tampered ones, TrieStore-backed historic DAO Seek both directions, historic invocations vs live). Defects found on the real code by this check (F25=F31 TrieStore start comparison, F32 historic VM under RemoveUntraceableBlocks; F3 shared with C10) are repaired in /repo. Partial: historic execution = live execution is compared, not proved.",
     note="Trusted: Coq kernel and vm_compute, the hand-written model, the Go harness and its flat specification, the orchestration script. Assumed: the trie interface hypotheses (C10), determinism of VM and natives.",
 )
